@@ -1,7 +1,7 @@
 (* C12 - Statistics only accumulate; taking a snapshot changes nothing.  Statements only. *)
 From Coq Require Import List ZArith Bool.
 From Coq Require Import Sorted.
-From LP Require Import Trace.GenRun Trace.ZMap Trace.Concrete Trace.ConcreteFacts Trace.RefineLemmas Trace.Main Trace.Witness Trace.Stats Trace.Report Trace.LabelMono.
+From LP Require Import Gen.PyLayer Trace.PyLayerFacts Trace.GenRun Trace.ZMap Trace.Concrete Trace.ConcreteFacts Trace.RefineLemmas Trace.Main Trace.Witness Trace.Stats Trace.Report Trace.LabelMono.
 Import ListNotations.
 Open Scope Z_scope.
 
@@ -80,3 +80,13 @@ Proof. exact snapshot_entry_is_label_hits. Qed.
 Theorem C12_model_is_generated_core :
   forall codes tick start ops, gen_run codes tick start ops = run codes tick start ops.
 Proof. exact gen_run_eq. Qed.
+
+(* The reading methods of the Python layer (Gen/PyLayer.v, regenerated from line_profiler.py on this run: print_stats
+   and dump_stats use the profiler object only through one get_stats() call, the Python class overrides no core
+   method): a read by any method anywhere in a history leaves the tables, and every later report, as they are
+   without it. *)
+Theorem C12_reading_methods_are_snapshots :
+  forall r codes tick start ops1 ops2,
+    core (run codes tick start (ops1 ++ reader_ops r ++ ops2)) = core (run codes tick start (ops1 ++ ops2))
+    /\ get_stats codes (run codes tick start (ops1 ++ reader_ops r ++ ops2)) = get_stats codes (run codes tick start (ops1 ++ ops2)).
+Proof. exact readers_change_nothing. Qed.
